@@ -24,6 +24,7 @@ def c03(tier, rep):
     E.grow(rep, M.DOCSTRING, [([1, 2, 3, 4], 2 if tier == "quick" else 3), ([1, 2, 3, 5], 2)], invariants=["Inv_C03"], label="docstring", no_free_text=False)
     E.reuse_pass(rep, E.src_corpus() + E.src_limits() + E.src_generated(60, SEED), "reuse")
     E.traces(rep, E.record_all(std_sources(tier, 300, 3000)), "corpus+gen+noisy")
+    E.usage_variants_pass(rep, E.src_corpus() + E.src_limits() + E.src_generated(60, SEED + 4))
 
 
 def _rows(rep, max_len, alpha, indent, tag, own_fields):
@@ -84,6 +85,7 @@ def c04(tier, rep):
     _rows(rep, 5 if tier == "quick" else 6, (124, 101, 769, 32, 3635), (32,), "combining", ("col", "ast", "count"))
     E.menu(rep, M.BASE, 3 if tier == "quick" else 4, invariants=["Inv_C04"], label="base")
     E.traces(rep, E.record_all(std_sources(tier, 300, 3000)), "corpus+gen+noisy")
+    E.usage_variants_pass(rep, E.src_corpus() + E.src_limits() + E.src_generated(60, SEED + 4))
 
 
 def c18(tier, rep):
@@ -118,6 +120,7 @@ def c18(tier, rep):
             rep.violation({"kind": "reference-listing"}, {"engine": "corpus", "what": "token listing differs from the reference .tokens file", "file": f,
                                                           "first_diff": next(((a, b) for a, b in zip(got.split("\n"), want.split("\n")) if a != b), None)})
     E.traces(rep, E.record_all(std_sources(tier, 300, 3000), modes=("collect", "stop"), listing=True), "corpus+gen+noisy")
+    E.usage_variants_pass(rep, E.src_corpus() + E.src_limits() + E.src_generated(60, SEED + 4))
     # ... and through ONE parser / formatter pair re-used for all files, rejected ones in between (scripts/generate_tokens.py does this)
     from gherkin.parser import Parser
     from gherkin.token_formatter_builder import TokenFormatterBuilder
@@ -289,6 +292,7 @@ def _compile_family(tier, rep, inv):
                            (PFX_TAGS_AFTER_TABLE, 2), (PFX_CELLLESS, 2), (PFX_TAG_PLACEHOLDER, 2)],
            invariants=[inv], label="struct")
     E.traces(rep, E.record_all(std_sources(tier, 300, 3000) + E.src_generated(60 if q else 1000, SEED + 1, MIXED_CASE_DIALECTS)), "corpus+gen+noisy+dialects")
+    E.many_uses_pass(rep, 2500 if tier == "quick" else 20000)
     E.compiler_reuse_pass(rep, std_sources(tier, 150, 1500))
 
 
@@ -323,7 +327,7 @@ def _stream_runs(tier, rep, n_gen):
         runs.append(rec)
         k += m
     # the limit / look-ahead / state-leaving documents (parses abandoned at the error limit, open doc strings, dialect switches), each run closed by an ordinary source
-    lims = [(n + ".feature", d) for n, d, dl in E.src_limits() if dl == "en" and not E.known_finding_input(d) and len(d) < 20000]
+    lims = [(n + ".feature", d) for n, d, dl in E.src_limits() if dl == "en" and not E.known_finding_input(d) and len(d) < 20000 and d.count("\n") <= 120]
     for k in range(0, len(lims), 3):
         rec, raw = S.record_run(f"stream-limits{k}", lims[k:k + 3] + [("plain.feature", "Feature: second\n  Scenario: t\n    Given x\n")], allopts[(k // 3) % 8] if k % 2 else (True, True, True))
         runs.append(rec)
@@ -438,6 +442,7 @@ def c11(tier, rep):
     E.grow(rep, M.STRUCT, [([], 6 if q else 8), (PFX_TAGGED, 2 if q else 3), (PFX_OUTLINE, 2 if q else 4)], invariants=["Inv_C11"], label="struct")
     _stream_part(tier, rep, lambda what: what in ("Inv_C11_Unique", "Inv_C11_Dense", "unique", "envelopes") or "Monotone" in what)
     E.traces(rep, E.record_all(std_sources(tier, 300, 3000) + E.src_generated(40 if q else 600, SEED + 2, MIXED_CASE_DIALECTS)), "corpus+gen+noisy+dialects")
+    E.many_uses_pass(rep, 2500 if tier == "quick" else 20000)
     E.compiler_reuse_pass(rep, std_sources(tier, 100, 1000))
     _default_parser_ids(rep)
     _user_generators(rep, E.src_corpus() + E.src_limits() + E.src_generated(40 if q else 400, SEED + 3))
@@ -537,7 +542,7 @@ def _user_generators(rep, sources):
         return parser, comp, g
 
     for name, s, dialect in sources:
-        if E.known_finding_input(s):
+        if E.known_finding_input(s) or s.count("\n") > 300:
             continue
         ref, _ = run(standard)
         for how in (subclass, duck, rebound, rebound_after_use):
@@ -732,23 +737,25 @@ def c15(tier, rep):
     E.reuse_pass(rep, lim + lim[::-1] + lim, "reuse-limits")
     E.reuse_pass(rep, lim + lim[::-1] + lim, "reuse-limits-french-default", default="fr")
     E.compiler_reuse_pass(rep, lim + lim[::-1], "compiler-reuse-limits")
+    E.many_uses_pass(rep, 2500 if tier == "quick" else 20000)
     # determinism across processes: the same documents in interpreters with different string-hash seeds
     import subprocess, sys as _sys
     probe = ("import sys, json; sys.path.insert(0, sys.argv[1]); sys.path.insert(0, sys.argv[2]); import record as R, engines as E, gen\n"
-             "docs = [x for x in E.src_limits() if x[0].startswith(('empty-header', 'tag-placeholder', 'nfc', 'column-cross'))] + E.src_generated(40, 5)\n"
+             "docs = [x for x in E.src_limits() if x[0].startswith(('empty-header', 'tag-placeholder', 'nfc', 'column-cross', 'nfd', 'french', 'permuted', 'hash-in'))] + E.src_generated(40, 5) + E.src_generated(20, 6, ['ru', 'ja', 'fr', 'em'])\n"
              "print(json.dumps([[R.record(n, s, d)[k] for k in ('ast', 'pickles', 'errs')] for n, s, d in docs]))")
     from common import VERIF
     outs = []
-    for hs in ("1", "2", "77"):
-        pr = subprocess.run([_sys.executable, "-c", probe, os.path.join(VERIF, "harness"), os.path.join(VERIF, "harness")], capture_output=True, text=True,
-                            env=dict(os.environ, PYTHONHASHSEED=hs, PYTHONDONTWRITEBYTECODE="1"), timeout=300)
+    # ... and with another locale (C, no UTF-8 coercion), another working directory, optimisation on (assert statements removed)
+    for hs, env, cwd, flags in (("1", {}, None, []), ("2", {}, None, []), ("77", {"LC_ALL": "C", "LANG": "C", "PYTHONCOERCECLOCALE": "0", "PYTHONUTF8": "0"}, "/", []), ("3", {}, None, ["-O"])):
+        pr = subprocess.run([_sys.executable, *flags, "-c", probe, os.path.join(VERIF, "harness"), os.path.join(VERIF, "harness")], capture_output=True, text=True, cwd=cwd,
+                            env=dict(os.environ, PYTHONHASHSEED=hs, PYTHONDONTWRITEBYTECODE="1", **env), timeout=300)
         outs.append(pr.stdout if pr.returncode == 0 else "ERR " + pr.stderr[-300:])
     rep.case(("hash-seeds",))
     if any(o.startswith("ERR") for o in outs):
         from common import MachineryError
         raise MachineryError("hash-seed probe failed: " + outs[0][:300])
     if len(set(outs)) != 1:
-        rep.violation({"kind": "hash-seed-dependent"}, {"engine": "determinism", "what": "results differ between interpreters started with different PYTHONHASHSEED values"})
+        rep.violation({"kind": "hash-seed-dependent"}, {"engine": "determinism", "what": "results differ between interpreters started with different PYTHONHASHSEED values / locale / working directory / -O"})
     # determinism and purity of parse / compile on real documents
     for name, s, dialect in std_sources(tier, 150, 1500):
         if R.source_is_path(s):
@@ -780,7 +787,7 @@ def c16(tier, rep):
     for b in bad[:30]:
         rep.violation({"kind": "layout:" + b["tr"]["t"]}, {"engine": "MC_Layout", "what": "result of the transformed document differs from the adjusted original result", **b})
     srcs = [x for x in std_sources(tier, 150, 2000) if not (q and "very_long" in x[0])]
-    pairs = LY.build_pairs(srcs, SEED, 2 if q else 4)
+    pairs = LY.build_pairs([x for x in srcs if not x[0].startswith("count:")], SEED, 2 if q else 4)
     verdicts, ress = LY.validate_pairs(pairs)
     for res in ress[:-1]:
         rep.add_tlc("Trace_Layout", res, "batch")
@@ -802,6 +809,16 @@ def c16(tier, rep):
                                                                    "original_result": p["result"], "transformed_result": c["result"]})
             elif v == "not-admissible":
                 rep.extra["skipped_not_admissible"] = rep.extra.get("skipped_not_admissible", 0) + 1
+    # (the property speaks of documents whose carriage returns occur only in CR LF pairs: a file is read with universal newlines, Scanner.tla)
+    import re as _re, scanner as SC
+    srcs = [x for x in srcs if not _re.search(r"\r(?!\n)", x[1])]
+    cases, badsc, res = SC.model_check_and_replay(4 if q else 6)
+    rep.add_tlc("MC_Scanner", res, f"{len(cases)} arguments / file contents replayed on the real TokenScanner: a file whose CRs occur only in CR LF pairs reads as the string with LF (Inv_FileIsCrLfString)")
+    rep.traces += len(cases)
+    for inv in sorted(set(res.invariant_violations)):
+        rep.violation({"kind": "spec-invariant", "invariant": inv}, {"engine": "MC_Scanner", "what": f"{inv} violated", "tlc_tail": res.out[-3000:]})
+    for b in badsc[:20]:
+        rep.violation({"kind": "scanner"}, {"engine": "MC_Scanner", "what": "the real TokenScanner reads something else than the specification's stream", **b})
     for b in LY.file_vs_string(srcs[:: 3 if q else 1]):
         rep.violation({"kind": "file-vs-string"}, {"engine": "files", **b})
     crlf = [(n + "|crlf", s.replace("\n", "\r\n"), d) for n, s, d in srcs if "\r" not in s][:: 2 if q else 1]
